@@ -148,7 +148,7 @@ def run_property(modname: str, tier: str, seed: int, jobs: int = 16, only: Optio
     tasks = [(modname, o.id, tier, seed) for o in obs]
     results = []
     ctx = mp.get_context("fork")
-    hard = float(os.environ.get("SYMX_HARD_TIMEOUT", "1500" if tier == "quick" else "5400"))
+    hard = float(os.environ.get("SYMX_HARD_TIMEOUT", "1500" if tier == "quick" else "14400"))
     with ctx.Pool(min(jobs, max(1, len(tasks))), maxtasksperchild=1) as pool:
         it = pool.imap_unordered(_run_one, tasks)
         deadline = time.time() + hard
